@@ -230,6 +230,13 @@ def fault_suites(fmt, tier):
         ("fault-enum%d" % L, suite(fmt, enum(alpha, L), [3, 4, 64], hist, chunks=[[0], [1]], faults={"mode": "each", "kinds": kinds}, slots=1, extra=2, sample=q(tier, 3, 0)), 8),
         ("fault-struct", suite(fmt, rnd(q(tier, 300, 4000), maxrec=4, maxfield=4, damage=20), {"abs": [3, 5, 9], "rel": [-3, 1]}, {"rand": {"n": 2, "len": 5, "seeks": True}},
                                chunks=[[0], [2], [1]], conf_sample=3, faults={"mode": "each", "kinds": kinds}, slots=2, extra=3), 8),
+        # seeks FORWARD to records not yet read (positions known beforehand), from a reader that has read nothing, one record or
+        # one set - its buffer still holds the very first fill, leading blank lines included - with a source whose seek or
+        # whose reads after the seek fail; then reading goes on
+        ("fault-forward-seek", suite(fmt, rnd(q(tier, 300, 3000), maxrec=5, maxfield=3, damage=10), [8, 9, 12, 16],
+                                     {"fixed": [{"ops": pre + [{"o": "seekl", "i": k}], "tail": t} for k in (2, 3, 4)
+                                                for pre, t in (([{"o": "next"}], {"o": "next"}), ([], {"o": "next"}), ([{"o": "set", "s": 0}], {"o": "set", "s": 0}))]},
+                                     chunks=[[0]], faults={"mode": "each", "kinds": ["other", "seek_interrupted"]}, slots=1, extra=2), 8),
     ]
 
 
